@@ -99,8 +99,8 @@ P = {
          'TLA+ model of the tasklane protocol with explicit Go channel/select semantics (poll-and-park, rendezvous only with a parked peer, close(done) claiming parked goroutines, timer), one action per select/statement; TLC checks all interleavings incl. cancellation at every point, safety invariants and liveness under weak fairness, and rejects spec mutants; NoIdleWhileWaiting is also proved for ANY number of lanes, queue size, tasks and producers with the TLA+ proof system (77 obligations); traces of the real TaskLane (verif hooks as event sources and as cancellation gates at every protocol point, quiescence by goroutine census) are validated by TLC against the statement layer',
          'AtMostNRunning, NoIdleWhileWaiting as invariants and no-head-of-line-blocking liveness with a pinned task (rejecting the no-sharing mutant) in the model; on the real code: overlapping task bodies counted, all-busy then release-all-but-one scenarios per lane and push order, pinned-worker scenarios judged at quiescence',
          "witnessed schedules only (widened by hook gates, seeded yields, systematic scenario families); bounded model constants as stated", '5/C08'),
- "C14": ('spec/tasklane/TaskLane.tla (+TaskLaneMC, MC_*.cfg, MUT_*.cfg), spec/tasklane/TaskLaneCases.tla',
-         'TLA+ model of the tasklane protocol with explicit Go channel/select semantics (poll-and-park, rendezvous only with a parked peer, close(done) claiming parked goroutines, timer), one action per select/statement; TLC checks all interleavings incl. cancellation at every point, safety invariants and liveness under weak fairness, and rejects spec mutants; traces of the real TaskLane (verif hooks as event sources and as cancellation gates at every protocol point, quiescence by goroutine census) are validated by TLC against the statement layer',
+ "C14": ('spec/tasklane/TaskLane.tla (+TaskLaneMC, MC_*.cfg, MUT_*.cfg), spec/tasklane/TaskLaneCases.tla, proofs/tasklane/TaskLaneCountProof.tla, TaskLaneStatusProof.tla',
+         'TLA+ model of the tasklane protocol with explicit Go channel/select semantics (poll-and-park, rendezvous only with a parked peer, close(done) claiming parked goroutines, timer), one action per select/statement; TLC checks all interleavings incl. cancellation at every point, safety invariants and liveness under weak fairness, and rejects spec mutants; thorough tier: CntBounds and StatusBounds (PendingTask in 0..laneSize x (queueSize+1)) are also proved for ANY number of lanes, queue size, tasks and producers with the TLA+ proof system (TaskLaneCountProof, TaskLaneStatusProof on top of TaskLaneProof); traces of the real TaskLane (verif hooks as event sources and as cancellation gates at every protocol point, quiescence by goroutine census) are validated by TLC against the statement layer',
          'worker survives panics, LastPanicIsOne, StatusBounds for the multi-step Status read, AtRestExact (~ENABLED Internal) in the model (1.4M states); on the real code (-race build): simultaneous typed panics in several rounds with Status pollers, systematic at-rest states (pinned 0 / n-1 / n, every queue size) with exact PendingTask comparison, race detector reports on tasklane.go are violations',
          "witnessed schedules only (widened by hook gates, seeded yields, systematic scenario families); bounded model constants as stated", '5/C14'),
  "C02": ("spec/logger/LogSink.tla (+LogSinkMC), spec/logger/LogSinkCases.tla, proofs/logger/LogSinkProof.tla",
